@@ -62,6 +62,8 @@ impl TestRunnerAdapter {
                         thread::sleep(Duration::from_millis(50));
                     }
                     MachineRunningState::Running => {
+                        #[cfg(feature = "verif")]
+                        crate::verif::sched_point("M1", -1, -1);
                         {
                             let runner = thread_runner.read().unwrap();
                             let pc =
@@ -85,6 +87,8 @@ impl TestRunnerAdapter {
                             }
                         }
 
+                        #[cfg(feature = "verif")]
+                        crate::verif::sched_point("M2", -1, -1);
                         {
                             let mut runner = thread_runner.write().unwrap();
                             match runner.execute_instruction() {
@@ -229,6 +233,8 @@ impl MachineAdapter for TestRunnerAdapter {
 
     fn pause(&mut self) -> MosResult<()> {
         let pc = self.runner.read().unwrap().cpu().get_program_counter();
+        #[cfg(feature = "verif")]
+        crate::verif::sched_point("P1", pc as i64, -1);
         self.update_state(MachineRunningState::Stopped(ProgramCounter::new(
             pc as usize,
         )))?;
@@ -240,6 +246,8 @@ impl MachineAdapter for TestRunnerAdapter {
             let mut runner = self.runner.write().unwrap();
             runner.step_over()?;
         }
+        #[cfg(feature = "verif")]
+        crate::verif::sched_point("S_next", -1, -1);
         self.pause()?;
         Ok(())
     }
@@ -249,6 +257,8 @@ impl MachineAdapter for TestRunnerAdapter {
             let mut runner = self.runner.write().unwrap();
             runner.execute_instruction()?;
         }
+        #[cfg(feature = "verif")]
+        crate::verif::sched_point("S_step_in", -1, -1);
         self.pause()?;
         Ok(())
     }
@@ -258,6 +268,8 @@ impl MachineAdapter for TestRunnerAdapter {
             let mut runner = self.runner.write().unwrap();
             runner.step_out()?;
         }
+        #[cfg(feature = "verif")]
+        crate::verif::sched_point("S_step_out", -1, -1);
         self.pause()?;
         Ok(())
     }
